@@ -159,6 +159,7 @@ func (p *Prog) buildIndexes() {
 	}
 	p.callers = map[*ssa.Function][]ssa.CallInstruction{}
 	p.closures = map[*ssa.Function][]*ssa.MakeClosure{}
+	p.bound = map[*ssa.Function][]*ssa.MakeClosure{}
 	for _, fn := range p.ModFuncs() {
 		for _, b := range fn.Blocks {
 			for _, in := range b.Instrs {
@@ -170,6 +171,9 @@ func (p *Prog) buildIndexes() {
 				if mc, ok := in.(*ssa.MakeClosure); ok {
 					if f, ok := mc.Fn.(*ssa.Function); ok {
 						p.closures[f] = append(p.closures[f], mc)
+						if m := boundTarget(f); m != nil {
+							p.bound[m] = append(p.bound[m], mc)
+						}
 					}
 				}
 			}
@@ -181,6 +185,30 @@ func (p *Prog) buildIndexes() {
 func (p *Prog) StaticCallers(fn *ssa.Function) []ssa.CallInstruction {
 	p.buildIndexes()
 	return p.callers[fn]
+}
+
+// boundTarget: f is the synthetic wrapper of a bound method value (x.m used as a function); returns the method m.
+func boundTarget(f *ssa.Function) *ssa.Function {
+	if f.Synthetic == "" || len(f.FreeVars) != 1 {
+		return nil
+	}
+	for _, b := range f.Blocks {
+		for _, in := range b.Instrs {
+			if ci, ok := in.(ssa.CallInstruction); ok {
+				if sc := ci.Common().StaticCallee(); sc != nil && len(ci.Common().Args) > 0 && ci.Common().Args[0] == ssa.Value(f.FreeVars[0]) {
+					return sc
+				}
+			}
+		}
+	}
+	return nil
+}
+
+// BoundSites returns the places where method fn is turned into a function value bound to a receiver (x.fn): the
+// receiver is Bindings[0] of each.
+func (p *Prog) BoundSites(fn *ssa.Function) []*ssa.MakeClosure {
+	p.buildIndexes()
+	return p.bound[fn]
 }
 
 // ClosureSites returns the MakeClosure instructions creating fn.
